@@ -393,8 +393,12 @@ def run_chain(case, rec):
         bad.append("leaf: expected None, got %r" % (st.leaf,))
     if st.root is not x:
         bad.append("root is not x")
-    if [f.pyframe for f in st2.frames] != [f.pyframe for f in st.frames] or st2.leaf is not st.leaf:
-        bad.append("with_contexts=False gives different frames")
+    def sig(fs):
+        return [(f.pyframe, f.lineno, id(f.origin), bool(f.hide), bool(f.hide_line)) for f in fs]
+    if sig(st2.frames) != sig(st.frames) or st2.leaf is not st.leaf:
+        bad.append("with_contexts=False gives different frames (frame object, line, origin or flags)")
+    if any(f.contexts for f in st2.frames):
+        bad.append("with_contexts=False left contexts")
     # C16: origins and extract_outermost
     c16 = []
     for idx, fr in enumerate(st.frames):
@@ -596,6 +600,40 @@ def other_items():
     def body():
         g = tgen()
         next(g)
+    # no frames, but recorded errors: extract_outermost re-raises what extract records -- one error as it is, several as
+    # an ExceptionGroup of them
+    class Failing:
+        def __init__(self, tag):
+            self.tag = tag
+
+    class Holder:
+        def __init__(self, n):
+            self.n = n
+
+    @stackscope.unwrap_stackitem.register(Failing)
+    def _unwrap_failing(item):
+        raise ValueError("cannot look inside %s" % item.tag)
+
+    @stackscope.unwrap_stackitem.register(Holder)
+    def _unwrap_holder(item):
+        return [Failing("item-%d" % k) for k in range(item.n)]
+    for nerr in (1, 2, 3):
+        n += 1
+        h = Holder(nerr)
+        st = stackscope.extract(h)
+        rec_ = st.error
+        members = list(rec_.exceptions) if hasattr(rec_, "exceptions") else [rec_]
+        if st.frames or rec_ is None or len(members) != nerr:
+            bad.append("harness: %d failing items gave frames %s error %r" % (nerr, [f.funcname for f in st.frames], rec_))
+            continue
+        try:
+            stackscope.extract_outermost(h)
+            bad.append("%d recorded errors, no frames: extract_outermost returned" % nerr)
+        except BaseException as ex:
+            raised = list(ex.exceptions) if hasattr(ex, "exceptions") else [ex]
+            if (hasattr(ex, "exceptions") != hasattr(rec_, "exceptions")
+                    or [(type(e), str(e)) for e in raised] != [(type(e), str(e)) for e in members]):
+                bad.append("no frames and %d recorded error(s): extract() records %r, extract_outermost() raised %r" % (nerr, rec_, ex))
     # the options of the call govern extract_outermost exactly as they govern extract: a manager hosting "child tasks"
     # (its elaborate_context hook calls extract_child(for_task=True)) in the outermost frame
     class Group:
